@@ -110,10 +110,12 @@ Theorem independent_op_spec (op : R -> R -> R) (XL XR YL YR : list R) :
 Proof. intros. unfold independent_op. rewrite corners_cart by assumption. reflexivity. Qed.
 
 (* condensation of the n*n sorted values back to n steps picks index k(n+1), inside the k-th block of n *)
+Lemma cond_index_nat len number i : cond_index len number i = if Nat.eqb number 1 then 0%nat else ((i * (len - 1)) / (number - 1))%nat.
+Proof. unfold cond_index. destruct (Nat.eqb number 1); [reflexivity|]. rewrite <- Nat2Z.inj_mul, <- Nat2Z.inj_div. apply Nat2Z.id. Qed.
 Theorem indep_block n k : (1 < n)%nat -> (k < n)%nat ->
   cond_index (n * n) n k = (k * (n + 1))%nat /\ (k * n <= cond_index (n * n) n k <= k * n + (n - 1))%nat.
 Proof.
-  intros Hn Hk. unfold cond_index. destruct (Nat.eqb_spec n 1) as [->|_]; [lia|].
+  intros Hn Hk. rewrite cond_index_nat. destruct (Nat.eqb_spec n 1) as [->|_]; [lia|].
   assert (E : (n * n - 1 = (n + 1) * (n - 1))%nat) by nia.
   rewrite E, Nat.mul_assoc, Nat.div_mul by lia. split; [reflexivity|nia].
 Qed.
